@@ -29,6 +29,7 @@ type obj struct {
 	br      modbus.BuilderRequest
 	coil    *packet.ReadCoilsResponseTCP // shares nothing with resp; has its own payload copy
 	coilPay []byte
+	coilBR  modbus.BuilderRequest // coil fields incl. adjacent duplicates
 }
 
 func build(payload []byte, start uint16) *obj {
@@ -56,13 +57,21 @@ func build(payload []byte, start uint16) *obj {
 	o.br = modbus.BuilderRequest{ServerAddress: "s", UnitID: 1, StartAddress: start, Fields: fs}
 	o.coilPay = append([]byte(nil), payload...)
 	o.coil = &packet.ReadCoilsResponseTCP{ReadCoilsResponse: packet.ReadCoilsResponse{UnitID: 1, CoilsByteLength: uint8(len(p)), Data: o.coilPay}}
+	cf := func(name string, off uint16) modbus.Field {
+		return modbus.Field{Name: name, ServerAddress: "s", UnitID: 1, Address: start + off, Type: modbus.FieldTypeCoil}
+	}
+	o.coilBR = modbus.BuilderRequest{ServerAddress: "s", UnitID: 1, StartAddress: start,
+		Fields: modbus.Fields{cf("c0", 0), cf("c0", 0), cf("c3", 3), cf("c5", 5), cf("c5", 5), cf("c7", 7)}}
 	return o
 }
 
-// key is the canonical state: everything a later read could observe.
+// key is the canonical state: the payload bytes and every exported field of the response and of the request's field
+// list. Unexported fields of the Registers view are deliberately NOT part of it (a memoising view that always returns the
+// same answers does not violate the property); whether a read changed what later reads return is decided by the
+// history comparison instead.
 func (o *obj) key() string {
 	return hex.EncodeToString(o.payload) + "|" + hex.EncodeToString(o.resp.Data) + "|" + fmt.Sprintf("%d %d %d", o.resp.UnitID, o.resp.RegisterByteLen, o.resp.TransactionID) +
-		"|" + fmt.Sprintf("%+v", *o.regs) + "|" + hex.EncodeToString(o.coilPay) + "|" + hex.EncodeToString(o.coil.Data) + "|" + fmt.Sprintf("%+v", o.br.Fields)
+		"|" + hex.EncodeToString(o.coilPay) + "|" + hex.EncodeToString(o.coil.Data) + "|" + fmt.Sprintf("%+v", o.br.Fields) + "|" + fmt.Sprintf("%+v", o.coilBR.Fields)
 }
 
 type op struct {
@@ -119,6 +128,30 @@ func ops(n int) []op {
 		add("Float32@"+an, func(o *obj) string { return r2(o.regs.Float32(o.start + off)) })
 		add("String(len 2)@"+an, func(o *obj) string { return r2(o.regs.String(o.start+off, 2)) })
 	}
+	// a view whose default order is switched, read, and switched back: the answer must not depend on what was read
+	// before the switch (the default NewRegisters documents is big endian, high word first)
+	for _, ord := range []packet.ByteOrder{packet.LittleEndian, packet.BigEndianLowWordFirst, packet.LittleEndianHighWordFirst} {
+		ord := ord
+		with := func(o *obj, f func() string) string {
+			o.regs.WithByteOrder(ord)
+			defer o.regs.WithByteOrder(packet.BigEndianHighWordFirst)
+			return f()
+		}
+		add(fmt.Sprintf("WithByteOrder(%d){Uint16@first}", ord), func(o *obj) string {
+			return with(o, func() string { return r2(o.regs.Uint16(o.start)) })
+		})
+		add(fmt.Sprintf("WithByteOrder(%d){Int16@last}", ord), func(o *obj) string {
+			return with(o, func() string { return r2(o.regs.Int16(o.start + uint16(n-1))) })
+		})
+		add(fmt.Sprintf("WithByteOrder(%d){Uint32@first}", ord), func(o *obj) string {
+			return with(o, func() string { return r2(o.regs.Uint32(o.start)) })
+		})
+		add(fmt.Sprintf("WithByteOrder(%d){String2@first}", ord), func(o *obj) string {
+			return with(o, func() string { return r2(o.regs.String(o.start, 2)) })
+		})
+	}
+	add("ExtractFields(coils,strict)", func(o *obj) string { return r2(o.coilBR.ExtractFields(o.coil, false)) })
+	add("ExtractFields(coils,lenient)", func(o *obj) string { return r2(o.coilBR.ExtractFields(o.coil, true)) })
 	add("AsRegisters+Uint16", func(o *obj) string {
 		r, err := o.resp.AsRegisters(o.start)
 		if err != nil {
